@@ -199,6 +199,31 @@ CHECKS_K1 = {
                 "times included) - bounded.",
         "technique": "function/closure contracts (subscribe + one arbitrary tick, loop invariant for the drain loop), symbolic execution of the real code, SMT",
     },
+    "C40": {
+        "text": "Two layers on the real code. (1) K1 refinement of do_action_ (all 8 combinations of its optional callbacks), "
+                "do_after_next, do_on_terminate and do_after_terminate against spec machines: the sequence and its terminal pass "
+                "unchanged, every callback sees its notification once and in the documented order relative to the subscriber, and a "
+                "raising callback ends the sequence with on_error of that exception. (2) Function / closure contracts for the "
+                "subscription side, with the library's Disposable / CompositeDisposable run for real: using_ calls the resource factory "
+                "once and the observable factory once with the resource, subscribes the inner observable once, and returns a "
+                "disposable that holds the subscription AND the resource whenever the factory returned one - its truthiness is "
+                "arbitrary (an empty CompositeDisposable is falsy) - so that disposing it disposes each exactly once and disposing it "
+                "again nothing; a raising factory (either one) reaches the subscriber as throw(that exception) and a resource already "
+                "created is still held. finally_action_: a raising source.subscribe runs the action once and propagates; otherwise "
+                "nothing runs at subscription and disposing the result disposes the subscription and then runs the action exactly "
+                "once - also when disposing the subscription raises - and never again. do_finally: the terminal handlers pass the "
+                "terminal on first and then run the action iff it has not run (flag arbitrary), the dispose hook runs it iff it has "
+                "not run, each marks it as run: once per subscription in any order of termination and disposal. do_on_dispose / "
+                "do_on_subscribe: the action runs exactly at disposal (once) / once before the source is subscribed.",
+        "note": _K1_NOTE + " For layer (2): the source is opaque (subscribe returns a subscription or raises), actions and factories are "
+                "opaque call-outs; finally/dispose actions are assumed to return normally for the exactly-once clauses. That the "
+                "subscription IS disposed when the sequence terminates - which turns 'once when disposed' into 'once per subscription, "
+                "at termination or disposal, whichever comes first' - is the AutoDetachObserver clause of C01, used here as a "
+                "contract. Not thread-safe by design (do_finally's flag is unlocked): concurrent termination and disposal are outside. "
+                "Replay and thorough cross-check: resrun.py (resource kinds incl. a falsy one x timelines x dispose order x raising "
+                "factories) - bounded.",
+        "technique": "K1 handler refinement for the side-effect operators + function/closure contracts for resources and finally-actions, SMT",
+    },
     "C42": {
         "text": "Function and closure contracts on the real CatchScheduler under a class invariant I (handler fixed; a cached recursive "
                 "wrapper is a CatchScheduler with the same handler wrapping `_recursive_original`), each proved from an ARBITRARY object "
